@@ -46,13 +46,25 @@ def frame_job(job):
     n = job["n"]
 
     def build():
-        @pt.Subroutine(pt.TealType.none)
-        def many_locals():
+        def body(output=None):
             xs = [pt.abi.Uint64() for _ in range(n)]
             st = [x.set(pt.Txn.fee() ^ pt.Int(i)) for i, x in enumerate(xs)]
             for c in range(0, n, 100):
                 st.append(pt.Log(pt.Concat(*[pt.Itob(x.get()) for x in xs[c:c + 100][::-1]])) if len(xs[c:c + 100]) > 1 else pt.Log(pt.Itob(xs[c].get())))
+            if output is not None:
+                st.append(output.set(xs[-1]))
             return pt.Seq(*st)
+        if job.get("abi_output"):
+            # the locals of an ABIReturnSubroutine share the frame with its output (frame cell 0)
+            @pt.ABIReturnSubroutine
+            def many_locals_out(*, output: pt.abi.Uint64):
+                return body(output)
+            res = pt.abi.Uint64()
+            return P.compile_abi(pt.Seq(many_locals_out().store_into(res), pt.Approve()), job["version"], job.get("optimize"))
+
+        @pt.Subroutine(pt.TealType.none)
+        def many_locals():
+            return body()
         return P.compile_abi(pt.Seq(many_locals(), pt.Approve()), job["version"], job.get("optimize"))
 
     out, prog, teal = _common(job, build)
@@ -115,6 +127,8 @@ def build_jobs(t, sd):
             for opt in (None, {"frame_pointers": False}):
                 jobs.append({"id": "frame-locals:n%d@v%d%s" % (n, v, "" if opt is None else "/nofp"), "family": "frame-locals", "fn": "frame", "n": n,
                              "version": v, "optimize": opt})
+                jobs.append({"id": "frame-locals-abi-output:n%d@v%d%s" % (n, v, "" if opt is None else "/nofp"), "family": "frame-locals", "fn": "frame", "n": n,
+                             "version": v, "optimize": opt, "abi_output": True})
     jobs.sort(key=lambda j: -(j.get("needed") or j.get("n") or 0))
     for j in jobs[:: max(1, len(jobs) // 5)]:
         j["want_sample"] = True
